@@ -93,7 +93,7 @@ for FL in "${FLAVOURS[@]}"; do
 	echo "$TH $VH" > "$STAMP"
 done
 # optional C helper for the reference CRCs
-if [ -f "$VERIF/ref/refcrc.c" ] && { [ ! -f "$B/librefcrc.so" ] || [ "$VERIF/ref/refcrc.c" -nt "$B/librefcrc.so" ]; }; then
-	gcc -O2 -shared -fPIC -o "$B/librefcrc.so" "$VERIF/ref/refcrc.c"
+if [ -f "$VERIF/ref/refcrc.c" ] && { [ ! -f "$VERIF/ref/librefcrc.so" ] || [ "$VERIF/ref/refcrc.c" -nt "$VERIF/ref/librefcrc.so" ]; }; then
+	gcc -O2 -shared -fPIC -o "$VERIF/ref/librefcrc.so.tmp" "$VERIF/ref/refcrc.c" && mv "$VERIF/ref/librefcrc.so.tmp" "$VERIF/ref/librefcrc.so"
 fi
 exit 0
